@@ -247,6 +247,12 @@ func (a *AsyncAdapter) Close() error {
 	_ = a.ioc.UnsetReadWrite(&a.slot)
 	a.ioc.Deregister(&a.slot)
 
+	// The descriptor belongs to the adapted object (for example a net.Conn, which also closes it when it is closed or
+	// garbage collected). Closing it through its owner keeps it from being closed twice - the second time possibly
+	// after the kernel has handed the same number to another object.
+	if closer, ok := a.rw.(io.Closer); ok {
+		return closer.Close()
+	}
 	return syscall.Close(a.slot.Fd)
 }
 
